@@ -41,6 +41,10 @@ pub enum TimeoutCase {
     Virtual { total: Option<u64>, steps: Vec<Step> },
     /// real-time replay through the binary; limits in milliseconds; `slow` = index of the slow test (sleep 30) if any
     Real { tests: usize, slow: Option<usize>, per_test_ms: Option<u64>, total_ms: Option<u64>, via_flag: bool, cram: bool, #[serde(default)] wait_ms: Option<u64>, #[serde(default)] stubborn: bool, #[serde(default)] closes_streams: bool },
+    /// real-time replays of two behaviours of the pipe handling below scrut (the `subprocess` crate):
+    /// kind 0: a command that floods stdout (300 MB as fast as it can) under a 100 ms limit;
+    /// kind 1: a command that exits at once while more than a pipe buffer of its expression is still unread, default limits
+    Pipe { kind: u8, cram: bool },
 }
 
 thread_local! {
@@ -214,6 +218,11 @@ impl Engine for VcTimeout {
             });
         }
         v.extend(real);
+        // (the flood only per-process: the single-script executor needs more than 30 s to take 300 MB of output apart)
+        v.push(TimeoutCase::Pipe { kind: 0, cram: false });
+        for cram in [false, true] {
+            v.push(TimeoutCase::Pipe { kind: 1, cram });
+        }
         Box::new(v.into_iter())
     }
     fn bound(&self, tier: Tier) -> String {
@@ -339,6 +348,39 @@ impl Engine for VcTimeout {
                 if let Some(d) = deadline {
                     if end > d {
                         fail("document-limit-bounds-execution", format!("{}: execution ends by {d}s", describe()), format!("ends at {end}s"));
+                    }
+                }
+            }
+            TimeoutCase::Pipe { kind, cram } => {
+                res.nontrivial.push(("C14", key));
+                res.counters.push(("real_time_replays", 1));
+                let sb = Sandbox::new();
+                let filler: String = (0..3000).map(|i| format!("> : filler line {i:04} xxxxxxxxxxxxxxxxxxxxxxxxxxxxxxxxxxxxxxxxxxxxxxxx\n")).collect();
+                let (cmd, cfg, args_extra): (String, &str, Vec<&str>) = match (kind, cram) {
+                    (0, false) => ("head -c 300000000 /dev/zero | tr '\\0' x > /dev/stderr".into(), " {timeout: 100ms}", vec![]),
+                    (0, true) => ("head -c 300000000 /dev/zero | tr '\\0' x".into(), "", vec!["--timeout-seconds", "1"]),
+                    _ => (format!("exit 0\n{}", if *cram { filler.replace("> ", "  > ") } else { filler.clone() }).trim_end().to_string(), "", vec![]),
+                };
+                let doc = if *cram { format!("Test 0\n  $ {cmd}\n\nTest 1\n  $ true\n") } else { format!("# Test 0\n\n```scrut{cfg}\n$ {cmd}\n```\n\n# Test 1\n\n```scrut\n$ true\n```\n") };
+                let name = if *cram { "doc.t" } else { "doc.md" };
+                sb.write(name, doc.as_bytes());
+                let mut args = vec!["test", "--no-color", "-r", "json"];
+                args.extend(args_extra);
+                args.push(name);
+                let run = run_scrut(&sb, &args, &[], Duration::from_secs(30));
+                let kinds = run.json_kinds();
+                let ms = run.wall.as_millis() as u64;
+                res.outcome.push(("C14", hash64(&("pipe", kind, cram, run.status, kinds.as_ref().ok().cloned()))));
+                if *kind == 0 {
+                    let limit = if *cram { 1000 } else { 100 };
+                    let timed_out = kinds.as_ref().map(|k| k.first().map(|x| x == "timeout").unwrap_or(false)).unwrap_or(false);
+                    if run.timed_out || !timed_out || ms > limit + 1000 {
+                        res.findings.push(Finding::new("C14", "aborted-once-the-limit-elapsed", format!("{} document, a command that writes 300 MB as fast as it can under a limit of {limit} ms: reported as timed out, within [{limit}, {}] ms", if *cram { "cram" } else { "markdown" }, limit + 1000), format!("{kinds:?} after {ms} ms (status {:?})", run.status)).tag("output-flood"));
+                    }
+                } else {
+                    let fine = kinds.as_ref().map(|k| k.iter().all(|x| x == "success")).unwrap_or(false) || (*cram && run.status == Some(1));
+                    if !fine {
+                        res.findings.push(Finding::new("C14", "no-timeout-inside-limits", format!("{} document whose first command is `exit 0` followed by 190 KB of further lines of the same expression, default limits: no timeout", if *cram { "cram" } else { "markdown" }), format!("{kinds:?} after {ms} ms (status {:?}); stderr {:?}", run.status, run.stderr_str().lines().last().unwrap_or(""))).tag("exit-with-unread-script"));
                     }
                 }
             }
@@ -469,6 +511,7 @@ impl Engine for VcTimeout {
     fn size(&self, case: &TimeoutCase) -> usize {
         match case {
             TimeoutCase::Virtual { total, steps } => steps.len() * 100 + steps.iter().map(|s| s.d as usize + s.timeout.unwrap_or(0) as usize + s.wait.unwrap_or(0) as usize * 3).sum::<usize>() + total.unwrap_or(0) as usize,
+            TimeoutCase::Pipe { kind, cram } => 20_000 + *kind as usize * 2 + *cram as usize,
             TimeoutCase::Real { tests, wait_ms, stubborn, closes_streams, .. } => 10_000 + tests + wait_ms.is_some() as usize * 10 + *stubborn as usize * 5 + *closes_streams as usize * 6,
         }
     }
